@@ -421,6 +421,22 @@ pub fn run_op3(op: &str, a: &[&str]) -> Option<String> {
                 }
             })
         }
+        // rank_pair <kind> <first rank> <second rank> : `RankPair::into_iter` in iteration order, and `Display`
+        "rank_pair" => {
+            let k: Vec<usize> = a.iter().map(|x| x.parse().unwrap()).collect();
+            Some(match guarded(|| {
+                let rp = match k[0] {
+                    0 => RankPair::Pocket(rank_of(k[1])),
+                    1 => RankPair::Suited(rank_of(k[1]), rank_of(k[2])),
+                    _ => RankPair::Ofsuit(rank_of(k[1]), rank_of(k[2])),
+                };
+                let v: Vec<String> = rp.into_iter().map(|cp| pair_code(&cp).to_string()).collect();
+                format!("{} text={}", v.join(","), hex(format!("{}", rp).as_bytes()))
+            }) {
+                Some(s) => s,
+                None => "panic".to_string(),
+            })
+        }
         "parse_token" => {
             let s = unhex_str(a[0]);
             Some(match guarded(|| HandRangeToken::from_str(&s)) {
